@@ -447,6 +447,17 @@ func strideProven(f *ssa.Function, data, off ssa.Value, need int64, at *ssa.Basi
 		}
 		for pi, pair := range [][2]ssa.Value{{bo.X, bo.Y}, {bo.Y, bo.X}} {
 			lx, isLen := isLenOf(pair[0])
+			subInit := int64(-1)
+			if !isLen {
+				// len(data) - init, the same quantity as len(data[init:]) once init <= len(data) is known
+				if sb, ok := canonConv(pair[0]).(*ssa.BinOp); ok && sb.Op == token.SUB {
+					if k, isK := cInt(sb.Y); isK {
+						if l2, ok := isLenOf(sb.X); ok {
+							lx, isLen, subInit = l2, true, k
+						}
+					}
+				}
+			}
 			if !isLen {
 				continue
 			}
@@ -486,7 +497,13 @@ func strideProven(f *ssa.Function, data, off ssa.Value, need int64, at *ssa.Basi
 				}
 				base = canon(sl.X)
 			}
-			if !(sameValue(canon(lx), data) && init == 0) && (!sameValue(base, data) || lo != init) {
+			if subInit >= 0 {
+				// needs init <= len(data): a dominating length fact
+				c0 := &lbCtx{p: nil, busy: map[string]bool{}}
+				if !(sameValue(canon(lx), data) && subInit == init && c0.guardLBOnly(f, data, b) >= init) {
+					continue
+				}
+			} else if !(sameValue(canon(lx), data) && init == 0) && (!sameValue(base, data) || lo != init) {
 				continue
 			}
 			// pair[1] == step * n
@@ -714,6 +731,14 @@ func ruleP3(p *Prog, r *Report) {
 					if k, ok := cInt((idx)); ok && k < arr.Len() {
 						return
 					}
+					// a masked index into a table that covers the whole range of the mask
+					if bo, ok := canonConv(idx).(*ssa.BinOp); ok && bo.Op == token.AND {
+						for _, side := range []ssa.Value{bo.X, bo.Y} {
+							if m, ok := cInt(side); ok && m >= 0 && m < arr.Len() {
+								return
+							}
+						}
+					}
 				}
 				if _, isStr := xs.Type().Underlying().(*types.Basic); isStr {
 					return
@@ -741,6 +766,13 @@ func ruleP3(p *Prog, r *Report) {
 						if sameValue(a, xs) || sameLenSlices(a, xs) {
 							r.Ok(R, cons, p.InstrPos(in), "index is the range variable of a loop over this slice")
 							return
+						}
+						// a = make([]T, len(xs)): the loop runs over a slice made as long as the one indexed
+						if mk, ok := canon(a).(*ssa.MakeSlice); ok {
+							if a2, ok := isLenOf(mk.Len); ok && sameValue(a2, xs) {
+								r.Ok(R, cons, p.InstrPos(in), "index ranges over a slice that was made with the length of this one")
+								return
+							}
 						}
 						// xs = make([]T, len(a))
 						if mk, ok := canon(xs).(*ssa.MakeSlice); ok {
@@ -1042,4 +1074,10 @@ func productFits(m *ssa.BinOp, count ssa.Value, step int64) bool {
 		sb++
 	}
 	return nb+sb <= have || have >= 63
+}
+
+// guardLBOnly: the lower bound of len(v) that dominating guards alone establish at block at.
+func (c *lbCtx) guardLBOnly(f *ssa.Function, v ssa.Value, at *ssa.BasicBlock) int64 {
+	lb, _ := c.guardLB(f, v, at)
+	return lb
 }
